@@ -39,6 +39,11 @@ MISSED_FIRST = {
     "C06r5-1": "exponent texts of every length in C06's plan; a grammatical numeral rejected by BigBitstring is a C06 complaint as well (missed by C06, C05 and C15 at first; the other checks were not run in round 5)",
     "C14r5-2": "keywords with two signs among the targeted invalid texts, which C14 now sends through both entry points and pairs",
     "C15r5-2": "by its author's account a weak fit for C15 (big-endian accessors of Bitstring128 exist on the fixed type only): reported by C16",
+    "C04r5-1": "sources that ignore the failed write on a text longer than the buffer and return Ok (g_swallow_long in C04 and C14); at first only C05 reported it",
+    "C16r5-1": "try_from_le_bytes called at all four alignments of the slice's start address (missed by C16, C05 and C15 at first)",
+    "C16r5-2": "try_le_fill: slices of 2^29 bytes and neighbours given by length (missed by C16, C05 and C15 at first)",
+    "C17r5-1": "non-ASCII characters through write_char in C17's and C14's plans (they were in C06's only)",
+    "C18r5-2": "DIGITS zeros and 10^(p-1) as coefficients of the limit numerals",
     "C08r4-2": "outside C08 as its author notes (big-endian accessors of Bitstring128 are C16's subject): reported by C16, not by C08",
 }
 
